@@ -28,6 +28,19 @@ def mk_requests(rng, n):
         fmt = gen.hostile_format(rng) if hf else gen.rand_format(rng)
         txt = gen.hostile_text(rng) if ht else gen.rand_value_text(rng)
         bsz = rng.choice([0, 1, 2, 3, 7, 8, 9, 10, 11, 15, 16, 17, 31, 32, 33, 63, 64, 255, 256, 257, 300, rng.randrange(0, 301)])
+        if rng.random() < .03:
+            # an ordinal suffix at the very start of the caller's (exact-size) buffer, behind a field that may print nothing
+            spec = rng.choice(["%jth", "%-jth", "%Dth", "%dth", "%mth", "%Fth", "%cth", "%Vth", "%Hth", "%jth|%F", "%Yth", "%qth"]) + rng.choice(["", "|%T", "x"])
+            if rng.random() < .5:
+                out.append(("F", req("F", None, rng.choice(["12:34:56", "2012-03-04", "2012-03-04T10:00:00", "2012-W10-7"]), spec, str(bsz)), "F:ordinal-first"))
+            else:
+                rep = rng.choice(["hijri", "ymd", "daisy", "ldn", "ymcw", "sexy"])
+                out.append(("R", req("R", rep, str(rng.choice([150000, 910000, 140000])), None if rng.random() < .5 else "3600", spec, str(bsz)), "R:ordinal-first"))
+            continue
+        if rng.random() < .02:
+            # day numbers have no field grammar: nothing, blanks and signs alone are not numbers
+            out.append(("P", req("P", rng.choice(["ldn", "mdn", "jdn"]), rng.choice(["", " ", " x", "\t", "x", ".", "-", "+", " -", "  ", ". 5", "e5"])), "P:day-number-void"))
+            continue
         if k < .04:
             # the -e option's unescaper, in place on an exact-size copy
             b = fmt if isinstance(fmt, bytes) else fmt.encode("utf-8", "surrogateescape")
@@ -109,6 +122,12 @@ def drv_task(task):
             if cmd == "P" and outcome == "OK":
                 # the Umm-al-Qura reader has no field grammar to fall back on: what it accepts must be Y-M-D in range
                 flds = c[1].split("\t")
+                if len(flds) >= 3 and flds[1] in ("ldn", "mdn", "jdn", "lilian", "julian", "matlab"):
+                    # a day number has to start with a number
+                    if not re.match(r"^\s*[+-]?(\d|\.\d)", flds[2]):
+                        sh.bad("drv-accept", "drv:P:day-number-accepts-garbage", "dt_strpdt(%r, %r) accepted: %s" % (flds[2][:60], flds[1], a[:80]),
+                               dict(stdin=c[1], observed=a))
+                        continue
                 if len(flds) >= 3 and flds[1] in ("hijri", "ummulqura"):
                     m_ = re.match(r"^(\d{4})-(\d{1,2})-(\d{1,2})", flds[2])
                     if not m_ or not (1 <= int(m_.group(2)) <= 12 and 1 <= int(m_.group(3)) <= 31):
@@ -169,6 +188,25 @@ def tool_cases(rng, bindir, n):
             e = rng.choice([" && ", " || "]).join(ex(rng.choice([1, 2, 3])) for _ in range(rng.choice([1, 2, 3])))
             ls = "\n".join(gen.rand_value_text(rng) for _ in range(6)) + "\n2012-03-01\n2012-03-05T12:00:00\n"
             out.append(([T("dgrep")] + (["-v"] if rng.random() < .2 else []) + ["--", e], ls.encode("utf-8", "surrogateescape"), "dgrep-compound"))
+            continue
+        if rng.random() < .03:
+            # an ordinal suffix behind a field that prints nothing (a day of the year for a time of day, ...), at the very
+            # start of the format
+            spec = rng.choice(["%jth", "%-jth", "%Dth", "%dth", "%mth", "%Yth", "%Fth", "%cth", "%Vth", "%qth", "%Hth", "%jth|%F", "%-dth%-dth"])
+            val = rng.choice([["12:34:56"], ["-i", "hijri", "1445-01-01"], ["2012-03-04"], ["2012-03-04T12:00:00"], ["-i", "ldn", "157000"], ["2012-W10-7"]])
+            tool = rng.choice(["dconv", "dconv", "dadd", "dround"])
+            av = [T(tool), "-f", spec + rng.choice(["", "|%T", " x"])] + val + ({"dadd": ["1h"], "dround": ["1h"]}.get(tool, []))
+            out.append((av, b"", "ordinal-first"))
+            continue
+        if rng.random() < .03:
+            # many input formats: from 16 on the needles for the line scanner live on the heap
+            nf = rng.choice([15, 16, 17, 24, 33, 64])
+            fl = []
+            for i_ in range(nf):
+                fl += ["-i", rng.choice(["%Y/%m/%d", "%d.%m.%Y", "%Y%m%d", "%b %d %Y", "%F", "%d/%m/%y", "%A %d", "%s", "x%Y-%j"]) + rng.choice(["", " ", "x", "%%"])]
+            tool = rng.choice(["dround", "dround", "dconv", "dadd", "dgrep", "dsort", "dtest"])
+            tail = {"dround": ["-S", "1"], "dconv": ["-S"], "dadd": ["-S", "+1d"], "dgrep": [">=2012/01/01"], "dsort": [], "dtest": ["2012/03/17", "--gt", "17.03.2011"]}[tool]
+            out.append(([T(tool)] + fl + tail, b"2012/03/17\n17.03.2012 x\n20120317\nMar 17 2012\nnothing\n", "many-formats"))
             continue
         if rng.random() < .03:
             # the directory of the zone maps comes from the environment: lengths around PATH_MAX, with and without a map name
